@@ -50,6 +50,7 @@ CONTRACTS = WC.owned(PROP) + [
              note="no assumption beyond |sha256| == 32: concatenation of two fixed-width fields is unambiguous"),
     Contract("wormhole/_send.py:Send._encrypt_and_send", props=[PROP], params={"phase": "str", "plaintext": "bytes"},
              self_fields={"_key": "bytes", "_side": "str", "_M": "obj[IMailbox]"},
+             replay={"driver": "trace_replay:run", "collaborators": {"_M": "IMailbox"}},
              raises_exactly={"AssertionError": "not self._key",
                              "UnicodeEncodeError": "len(self._key) > 0 and (not is_ascii(self._side) or not is_ascii(phase))"},
              ensures=[("exactly-one-add_message", "bcall_names() == ['add_message']"),
@@ -61,7 +62,7 @@ CONTRACTS = WC.owned(PROP) + [
              modifies=[]),
     Contract("wormhole/_receive.py:Receive.got_message", props=[PROP],
              params={"side": "str", "phase": "str", "body": "bytes"},
-             self_fields={"_key": "opt[bytes]", "_side": "str"},
+             self_fields={"_key": "opt[bytes]", "_side": "str"}, replay={"driver": "trace_replay:run"},
              raises_exactly={"AssertionError": "not self._key",
                              "UnicodeEncodeError": "self._key is not None and len(self._key) > 0 and "
                                                    "(not is_ascii(side) or not is_ascii(phase))"},
@@ -84,6 +85,7 @@ CONTRACTS = WC.owned(PROP) + [
     Contract("wormhole/_mailbox.py:Mailbox.rx_message", props=[PROP],
              params={"side": "str", "phase": "str", "body": "bytes"},
              self_fields={"_side": "str", "_O": "obj[IOrder]", "_processed": "set[str]"},
+             replay={"driver": "trace_replay:run", "collaborators": {"_O": "IOrder"}},
              ensures=[("own-side-is-an-echo",
                        "implies(side == self._side, input_calls('rx_message_ours') == 1 and "
                        "input_calls('rx_message_theirs') == 0 and input_arg('rx_message_ours', 0, 0) == phase and "
@@ -97,6 +99,7 @@ CONTRACTS = WC.owned(PROP) + [
     Contract("wormhole/_mailbox.py:Mailbox.N_release_and_accept", props=[PROP],
              params={"side": "str", "phase": "str", "body": "bytes"},
              self_fields={"_processed": "set[str]", "_N": "obj[INameplate]", "_O": "obj[IOrder]", "_side": "str"},
+             replay={"driver": "trace_replay:run", "collaborators": {"_N": "INameplate", "_O": "IOrder"}},
              ensures=[("seen-phase-is-dropped", "implies(phase in old(self._processed), bcall_names() == ['release'])"),
                       ("new-phase-forwarded-once-unchanged",
                        "implies(phase not in old(self._processed), bcall_names() == ['release', 'got_message'] and "
@@ -109,6 +112,7 @@ CONTRACTS = WC.owned(PROP) + [
     Contract("wormhole/_boss.py:Boss.got_message", props=[PROP], params={"phase": "str", "plaintext": "bytes"},
              self_fields={"_next_rx_phase": "int", "_rx_phases": "dict[int,bytes]", "_next_rx_dilate_seqnum": "int",
                           "_rx_dilate_seqnums": "dict[int,bytes]", "_result": "str"},
+             replay={"driver": "trace_replay:run"},
              ensures=[("version", "implies(phase == 'version', trace_order() == ['input:_got_version'] and "
                                   "input_arg('_got_version', 0, 0) == plaintext)"),
                       ("dilate-N", "implies(is_dilate_phase(phase), trace_order() == ['input:_got_dilate'] and "
